@@ -146,6 +146,16 @@ def make_plan(seed: int, tier: str, index: int) -> dict[str, Any]:
                          "fault": "line_delete"})
         variants.append({"name": "G", "text": text_of(g_rows), "junk": [gl], "like": "D",
                          "fault": "garble_line"})
+    # a variant whose text equals an earlier variant's adds nothing (and a correct result cache
+    # keyed by the text would legitimately not report a second time): dropped
+    seen_texts: set[str] = set()
+    uniq = []
+    for v in variants:
+        if v["text"] in seen_texts and v["name"] not in ("O",):
+            continue
+        seen_texts.add(v["text"])
+        uniq.append(v)
+    variants = [v for v in uniq if v.get("like") is None or any(u["name"] == v["like"] for u in uniq)]
     concurrent = index % 4 == 3
     log_off_first = False
     if not concurrent and f.random() < 0.15 and len(variants) >= 2:
@@ -230,7 +240,11 @@ def execute(plan: dict[str, Any]) -> dict[str, Any]:
                 logging.disable(logging.CRITICAL)
                 try:
                     with monitors.bypass():  # nothing is reported while logging is off: not judged
-                        world.parse_text(variants[1]["text"])
+                        # (a text of its own, so that a result cache keyed by the text - which
+                        # would legitimately return variant A without parsing it again - stays
+                        # out of the picture)
+                        world.parse_text(variants[1]["text"].replace("[Song]", "[Song]", 1)
+                                         + "\n[LoggingOffFirst]\n{\n  junk\n}\n")
                 except Exception:  # noqa: BLE001
                     pass
                 finally:
